@@ -244,6 +244,44 @@ func roundTrip(c codec, a p2p.Addr, origin string) {
 	})
 }
 
+// batchRoundTrip marshals a whole list of addresses first (as a node advertising its
+// addresses does) and only then uses the texts: what MarshalText returned belongs to the
+// caller and must still read the same, and parse back, after later calls.
+func batchRoundTrip(c codec) {
+	guard(c.name, "batch", func() {
+		const batch = 16
+		for start := 0; start < len(c.addrs); start += batch {
+			end := start + batch
+			if end > len(c.addrs) {
+				end = len(c.addrs)
+			}
+			var texts [][]byte
+			var copies []string
+			for _, a := range c.addrs[start:end] {
+				t, err := a.MarshalText()
+				if err != nil {
+					return // reported by roundTrip
+				}
+				texts = append(texts, t)
+				copies = append(copies, string(t))
+				_ = a.String()
+			}
+			for i, a := range c.addrs[start:end] {
+				run.Add("evaluations", 1)
+				if string(texts[i]) != copies[i] {
+					run.Violate(evid.Violation{Kind: "marshalled-text-changed-later", Site: c.name, Detail: fmt.Sprintf("MarshalText returned %q; after marshalling other addresses the same slice reads %q", copies[i], texts[i]), Witness: copies[i]})
+					return
+				}
+				back, err := c.parse(texts[i])
+				if err != nil || !reflect.DeepEqual(a, back) {
+					run.Violate(evid.Violation{Kind: "address-changed", Site: c.name, Detail: fmt.Sprintf("batch: address %q parses to %#v (err=%v), was %#v", copies[i], back, err, a), Witness: copies[i]})
+					return
+				}
+			}
+		}
+	})
+}
+
 func arbitraryTexts(c codec) {
 	alpha := []string{"@", ":", "/", "[", "]", "%", ".", "-", "0", "9", "a", "\xff"}
 	var texts []string
@@ -379,6 +417,7 @@ func main() {
 			roundTrip(c, a, "generated")
 			n++
 		}
+		batchRoundTrip(c)
 		arbitraryTexts(c)
 		run.Sample(map[string]any{"codec": c.name, "addresses": len(c.addrs), "example": fmt.Sprint(c.addrs[len(c.addrs)/2])})
 	}
